@@ -165,6 +165,7 @@ type stepShape struct {
 	noFree   bool     // keep the preset also in the thorough tier (harnesses whose oracle assumes the preset)
 	symIDs   bool     // participant, entity and component-type ids start from arbitrary (symbolic) counters per session
 	rejoin   bool     // a0 was a member, had a switch refused and/or left for a session of its own, and joined again
+	prior    bool     // a1 comes from a session of its own where it held an entity with a component-less action and asset
 	flags    []string // feature flags of the world
 	par      *stepParams
 }
@@ -218,6 +219,19 @@ func newStepWorld(sh stepShape) *stepWorld {
 	s.a0.mustJoin("")
 	if sh.symIDs {
 		symbolicCounters(s.a0)
+	}
+	if sh.prior && sh.mods != 0 {
+		// a1's connection (and its per-connection module objects) has a history in another session
+		s.a1.mustJoin("")
+		pe := s.a1.addEntity(true, &hagallpb.Pose{})
+		if sh.mods&vModVikja != 0 {
+			s.a1.do(&vikjapb.EntityActionRequest{Type: vikjapb.MsgType_MSG_TYPE_VIKJA_ENTITY_ACTION_REQUEST, Timestamp: vts(), RequestId: 21,
+				EntityAction: &vikjapb.EntityAction{EntityId: pe, Name: "prior", Timestamp: vts()}})
+		}
+		if sh.mods&vModOdal != 0 {
+			s.a1.do(&odalpb.AssetInstanceAddRequest{Type: odalpb.MsgType_MSG_TYPE_ODAL_ASSET_INSTANCE_ADD_REQUEST, Timestamp: vts(), RequestId: 22, EntityId: pe, AssetId: "prior-asset"})
+		}
+		s.a1.drain()
 	}
 	s.a1.mustJoin(s.a0.sid)
 	if sh.rejoin {
